@@ -1,5 +1,5 @@
 (* C07 — lifecycle events, flush before ERROR, and what a connection starts from. *)
-Require Import Bytes Lifecycle LifecycleSpec LifecycleSteps LifecycleInv LifecycleTerm LifecycleResult.
+Require Import Bytes Lifecycle LifecycleSpec LifecycleSteps LifecycleInv LifecycleTerm LifecycleResult LifecycleChecker.
 From Coq Require Import List Bool Arith Lia.
 Import ListNotations.
 
@@ -219,6 +219,70 @@ Proof.
   intros H Lv. pose proof (K_exec b tr s H) as Kf. split; [exact (k_tracked _ _ _ _ _ Kf Lv)|]. split.
   - intros e He. rewrite (k_fifo _ _ _ _ _ Kf Lv). apply in_or_app. left. exact He.
   - intros e He. apply (k_sent _ _ _ _ _ Kf Lv e). right. right. right. right. exact He.
+Qed.
+
+(* ---- no stale output ---- *)
+(* everything this connection may legitimately write: its registration lines, what the
+   application handed to Send since Connect was called, and PINGs of its ping loop *)
+Definition out_step (l : label) (a : list out) : list out :=
+  match l with
+  | LConnCall regs _ => regs
+  | LSend o => a ++ [o]
+  | LTick 1 => a ++ [ping_out]
+  | _ => a
+  end.
+Definition outs_of (tr : list label) : list out := fold_left (fun a l => out_step l a) tr [].
+
+Record O (outs : list out) (s : state) : Prop := mkO {
+  o_regs : match cpc s with
+           | CStart r _ | CReg r => forall o, In o r -> In o outs
+           | _ => True
+           end;
+  o_queued : live s = true -> forall o, In o (tx s) \/ In o (outbuf s) -> In o outs
+}.
+
+Lemma O_init b : O [] (init b).
+Proof. constructor; simpl; auto. intros _ o [[]|[]]. Qed.
+
+Lemma O_step outs s l s' : O outs s -> tstep s l s' -> O (out_step l outs) s'.
+Proof.
+  intros [o1 o2] H. unfold live in *. constructor.
+  - tcase H; cbn [out_step]; known_cpc s; auto;
+      try (destruct (cpc s) eqn:?; auto);
+      try (intros q Hq; try (apply in_or_app; left); apply o1; cbn [In]; auto; fail).
+  - tcase H; cbn [out_step]; unfold enq, live in *; norm_step; intros Lv q Hin; known_cpc s; split_ifs_hyp; norm_step;
+      use_guards s; rewrite ?in_app_iff in *; cbn [In] in *; decomp; subst; try discriminate; try contradiction;
+      try solve [auto 4];
+      try solve [(try left); apply o2; [first [reflexivity|assumption]|cbn [In]; auto 4]];
+      try solve [(try left); apply o1; cbn [In]; auto 3].
+Qed.
+
+Lemma outs_of_snoc tr l : outs_of (tr ++ [l]) = out_step l (outs_of tr).
+Proof. unfold outs_of. rewrite fold_left_app. reflexivity. Qed.
+
+Lemma O_exec b tr s : exec b tr s -> O (outs_of tr) s.
+Proof.
+  induction 1 as [|tr s s' Hex IH Hs|tr s l s' Hex IH _ Hs].
+  - apply O_init.
+  - apply (O_step _ s Tau s' IH (step_tstep _ _ _ Hs)).
+  - rewrite outs_of_snoc. apply (O_step _ s l s' IH (step_tstep _ _ _ Hs)).
+Qed.
+
+Lemma out_eqb_eq a b : out_eqb a b = true -> a = b.
+Proof.
+  destruct a as [qa ta], b as [qb tb]. unfold out_eqb. simpl. intros H.
+  apply andb_prop in H. destruct H as [H1 H2]. apply eqb_prop in H1. apply str_eqb_eq in H2. subst. reflexivity.
+Qed.
+
+(* whatever the peer of a connection reads was queued for THIS connection: one of its
+   registration lines, something handed to Send after Connect was called, or a PING *)
+Theorem no_stale_output b tr s o s' :
+  exec b tr s -> live s = true -> step s (LPeerRecv o) s' -> In o (outs_of tr).
+Proof.
+  intros H Lv Hs. apply step_tstep in Hs. inversion Hs; subst.
+  match goal with He : out_eqb _ _ = true |- _ => apply out_eqb_eq in He; subst end.
+  apply (o_queued _ _ (O_exec b tr s H) Lv). right.
+  match goal with Ho : outbuf s = _ |- _ => rewrite Ho end. left. reflexivity.
 Qed.
 
 (* ---- the hypotheses of the theorems above are satisfiable ---- *)
